@@ -125,6 +125,11 @@ class Action(BaseForm):
 
     def __init__(self, left, right):
         """Initialise."""
+        if left is self or right is self:
+            # Action.__new__ returned this (already initialised) operand
+            # because the other one is an identity Argument/Coargument;
+            # Python then calls __init__ on it again: keep it as it is
+            return
         BaseForm.__init__(self)
 
         self._left = left
